@@ -27,6 +27,10 @@ CLAIMED = {
    technique="symbolic execution of MIR + z3 frame queries per field; real-CLI --base round trip as replay",
    text="Builder::new/with_base/into_openapi are executed symbolically for arbitrary spec and base; z3 proves per field that every top-level OpenAPI field except paths/components and every Components field except schemas equals the base's (or Components::default() when the base has none), that paths/schemas equal all_paths/all_components of the program and are equal for any two bases (two-run query), and that oal-cli's run hands with_base(new(spec), parsed base) to into_openapi exactly when a base is configured. No bound on values.",
    note="Trusted: MIR text, mirsym, z3/cvc5, summaries (Option::get_or_insert, Default::default), field orders read from MIR aggregates, read-set scan of Builder methods. Outside: what all_paths/all_components compute, YAML (de)serialisation of the base."),
+ "C15": dict(engine="K+M", category="model_checking", design="DESIGN.md 3/C15",
+   technique="MIR symbolic execution/z3 on the staleness protocol and the edit step + Kani/CBMC on edit offsets; real oal-lsp history-vs-fresh replay",
+   text="Partial: one-step lemmas from an arbitrary pre-state, not histories. Staleness protocol: each of the four notification handlers sets is_stale on every Ok path, after applying Workspace::{open,close,change} to the message's own parameters; in one iteration of main_loop the request dispatcher is reached only after refresh(state) returned Ok, and refresh also runs on the idle branch; refresh does nothing when not stale, otherwise clears the flag first, re-evaluates each folder, then publishes one PublishDiagnostics per entry of workspace.diagnostics(); diagnostics() starts from an empty list for every known document and takes the accumulated errors. Edit step: one change event converts range.start and range.end on the same current text and calls replace_range(start..end, change.text) on the stored document, or replaces the whole text when there is no range; Kani: for every text <= K chars (3 quick, 5 thorough) and every ordered pair of protocol-defined positions the server's offsets equal the client's (byte-level reference), are ordered, in range and on char boundaries.",
+   note="Trusted: MIR text, mirsym, z3, Kani/CBMC, stub Locator, reference conversion. Outside: equality with a fresh server over whole histories (only sampled by the replay oracle), read_file caching, liveness, malformed client ranges. A failing lemma is reported only if the real oal-lsp binary, driven over stdio, disagrees with a fresh server on one of 5 scripted histories."),
  "C16": dict(engine="K", category="model_checking", design="DESIGN.md 3/C16",
    technique="bounded model checking (Kani/CBMC) of the real functions vs. a byte-level reference",
    text="Bounded model checking (Kani/CBMC, SAT) of the real conversion functions against a byte-level reference: every text of <= K Unicode scalar values (K=4 quick, 6 thorough), every usize offset, every (u32,u32) position; unwinding assertions on, cover witnesses required. Nothing is claimed for longer texts.",
@@ -48,7 +52,6 @@ NA = {
 
 PENDING = {
  "C01": "check under construction (engine T+M); not yet registered",
- "C15": "check under construction (engines K+M); not yet registered",
 }
 
 HOOK_COMMITS = []
